@@ -31,8 +31,26 @@ static int64_t parse_i64(const char* s) {
     return neg ? (int64_t)(0 - m) : (int64_t)m;
 }
 
+// watchdog: a hang or a fatal signal inside the implementation becomes the outcome of the current
+// case (HANG / CRASH), the files are closed and the run stops there.
+static Out* g_out = NULL;
+static char g_id[32];
+static void on_signal(int sg) {
+    const char* w = sg == SIGALRM ? "HANG" : "CRASH";
+    if (g_out) {
+        g_out->I(g_id, w);
+        g_out->P(g_id, std::string("FAIL sort-not-ordered-permutation implementation ") + w);
+        g_out->count(std::string("aborted:") + w);
+        g_out->close();
+    }
+    _exit(0);
+}
+
 static void run_case(Out& out, const std::string& kind, const std::string& payload) {
     std::string id = out.add(kind, payload);
+    g_out = &out;
+    snprintf(g_id, sizeof g_id, "%s", id.c_str());
+    alarm(20);
     // tokens
     std::vector<std::string> tok;
     {
@@ -172,6 +190,10 @@ int main(int argc, char** argv) {
     bool thorough = strcmp(argv[2], "thorough") == 0;
     Out out;
     out.open(argv[3]);
+    signal(SIGALRM, on_signal);
+    signal(SIGSEGV, on_signal);
+    signal(SIGBUS, on_signal);
+    signal(SIGFPE, on_signal);
     if (argc > 5) {
         std::string k, p;
         if (load_replay(argv[5], k, p)) run_case(out, k, p);
@@ -224,6 +246,7 @@ int main(int argc, char** argv) {
                 gen_case(out, g, "intro", shape, 1000 + g.below(2001), c, (int)g.below(4));
             }
     }
+    alarm(0);
     out.close();
     return 0;
 }
